@@ -94,6 +94,19 @@ def rule_B2(ctx):
             node = ctx.node(f, c)
             if E.selfeff(node):
                 targets.append((node, f, False))
+    # helpers the mutators run on self (e.g. __setitem__ -> _setitem_int): same obligation inside them
+    work = [t[0] for t in targets]
+    seen_nodes = set(work)
+    while work:
+        n0 = work.pop()
+        edges, sn = E.edges(n0)
+        for (cn, root, cs) in edges:
+            if root is not None and root == sn and cn not in seen_nodes and E.selfeff(cn):
+                g = m.funcs[cn[0]]
+                if g.cls in FAMILY and g.name not in ('__init__', '__new__'):
+                    seen_nodes.add(cn)
+                    work.append(cn)
+                    targets.append((cn, g, False))
     arr = m.classes.get('Array')
     if arr is None:
         raise AnalysisError('anchor vanished: class Array')
